@@ -148,6 +148,13 @@ class NetCtx(VerifContext):
         """`r in list_of_reactions`: some element compares equal to r; Reaction.__eq__ is an abstract reflexive relation here (its
         properties are the subject of contracts/identity.py)"""
         from pyvc.sym import SBool
+        if isinstance(x, (SInt, int)) and not isinstance(x, bool) and isinstance(lst.codec, IntCodec) and len(lst.arrays) == 1:
+            # `idx in list_of_ints`: some element equals idx
+            j = z3.Int("j_in")
+            xt = x.t if isinstance(x, SInt) else z3.IntVal(x)
+            return SBool(z3.Exists([j], z3.And(j >= 0, j < lst.length, z3.Select(lst.arrays[0], j) == xt)))
+        if isinstance(x, (SInt, int)) and not isinstance(x, bool) and not interp.feas.feasible(lst.length > 0):
+            return SBool(z3.BoolVal(False))           # membership in a list that is empty on this path
         if isinstance(x, SObj) and x.cls == "Reaction" and len(lst.arrays) == 1:
             j = z3.Int("j_in")
             interp.assume(REQ(x.id, x.id))
@@ -317,13 +324,31 @@ def entry_remove(it):
     net.reaction_list = SList(ObjCodec("Reaction"), (L0,), nL)
     net._skipped_reactions = SList(ObjCodec("Reaction"), (Sk0,), nSk)
     net._reactants, net._products = SSet("Species", R0), SSet("Species", P0)
-    which = it.choose(3, "argument")
+    which = it.choose(5, "argument")
     k0 = z3.Int("k")
     arg = SInt(k0) if which == 0 else (1.5 if which == 1 else SObj("Reaction", z3.Int("r_arg")))
+    if which == 3:
+        # a list of integer positions of any length (repeats and any order allowed; as written, a negative entry names nothing)
+        K0, nK = z3.Const("K0", ArrI), z3.Int("len_K")
+        it.assume(nK >= 0)
+        arg = SList(IntCodec(), (K0,), nK)
+        it.ctx.L0, it.ctx.n0 = L0, nL
+        jq = z3.Int("j_k")
+        it.ctx.install_filter_loop("idx, r", lambda j: z3.Not(z3.Exists([jq], z3.And(jq >= 0, jq < nK, z3.Select(K0, jq) == j))))
     if which == 2:
         it.ctx.L0, it.ctx.n0 = L0, nL
         rid = arg.id
         it.ctx.install_filter_loop("r", lambda j: z3.Not(REQ(z3.Select(L0, j), rid)))
+    if which == 4:
+        # a list of Reaction instances of any length: a held reaction goes when some listed one compares equal to it
+        K0, nK = z3.Const("KR0", ArrI), z3.Int("len_KR")
+        it.assume(nK >= 0)
+        arg = SList(ObjCodec("Reaction"), (K0,), nK)
+        it.ctx.L0, it.ctx.n0 = L0, nL
+        jq = z3.Int("j_k")
+        it.ctx.install_filter_loop("r", lambda j: z3.Not(z3.Exists([jq], z3.And(jq >= 0, jq < nK, REQ(z3.Select(K0, jq), z3.Select(L0, j))))))
+        # (an empty list satisfies `all(isinstance(r, int) ...)` too and takes the index-list branch: nothing is named, nothing goes)
+        it.ctx.loop_specs[(it.ctx.QR, "idx, r")] = it.ctx.loop_specs[(it.ctx.QR, "r")]
     raised = None
     try:
         it.call_function(Network.remove_reaction, [net, arg], {})
@@ -332,27 +357,28 @@ def entry_remove(it):
     Lf, Skf = net.reaction_list, net._skipped_reactions
     unchanged = z3.And(Lf.length == nL, Lf.arrays[0] == L0, net._reactants.arr == R0, net._products.arr == P0)
     it.prove(z3.And(Skf.length == nSk, Skf.arrays[0] == Sk0), "remove/skipped-list-untouched", P)
-    if which == 2:
+    if which in (2, 3, 4):
         # a Reaction instance: every held reaction that compares equal to it goes, the others stay in order
+        # a list of positions: exactly the reactions at the listed positions go
         if raised is not None:
-            it.fail("remove/instance/no-exception", P, f"{raised!r}")
+            it.fail("remove/filtered/no-exception", P, f"{raised!r}")
             return
         g = it.ctx.final_ghost
         if g is None or not isinstance(Lf, SList):
-            it.fail("remove/instance/filtered-list-under-contract", P, f"{Lf!r}")
+            it.fail("remove/filtered/filtered-list-under-contract", P, f"{Lf!r}")
             return
         gq, grpos = g
         A, GQ = Lf.arrays[0], gq.arrays[0]
         keep = it.ctx.keep
         kk, jj = z3.Ints("kk jj")
-        it.prove(z3.And(Lf.length == gq.length, Lf.length <= nL), "remove/instance/ghost-source-positions", P)
+        it.prove(z3.And(Lf.length == gq.length, Lf.length <= nL), "remove/filtered/ghost-source-positions", P)
         it.prove(z3.ForAll([kk], z3.Implies(z3.And(0 <= kk, kk < Lf.length), z3.And(0 <= z3.Select(GQ, kk), z3.Select(GQ, kk) < nL, keep(z3.Select(GQ, kk)),
                                                                                   z3.Select(A, kk) == z3.Select(L0, z3.Select(GQ, kk))))),
-                 "remove/instance/every-remaining-reaction-was-held-and-differs-from-the-argument", P)
-        it.prove(z3.ForAll([kk], z3.Implies(z3.And(0 <= kk, kk + 1 < Lf.length), z3.Select(GQ, kk) < z3.Select(GQ, kk + 1))), "remove/instance/order-kept-no-repeats", P)
+                 "remove/filtered/every-remaining-reaction-was-held-and-is-not-named-by-the-argument", P)
+        it.prove(z3.ForAll([kk], z3.Implies(z3.And(0 <= kk, kk + 1 < Lf.length), z3.Select(GQ, kk) < z3.Select(GQ, kk + 1))), "remove/filtered/order-kept-no-repeats", P)
         gp = lambda j: term_of_ghost(grpos, j)
         it.prove(z3.ForAll([jj], z3.Implies(z3.And(0 <= jj, jj < nL, keep(jj)), z3.And(0 <= gp(jj), gp(jj) < Lf.length, z3.Select(GQ, gp(jj)) == jj))),
-                 "remove/instance/every-reaction-that-differs-from-the-argument-remains", P)
+                 "remove/filtered/every-reaction-not-named-by-the-argument-remains", P)
         it.prove(net._reactants.arr == RSET(A, Lf.length), "remove/wf-reactant-cache-follows-the-remaining-reactions", P)
         it.prove(net._products.arr == PSET(A, Lf.length), "remove/wf-product-cache-follows-the-remaining-reactions", P)
         return
